@@ -3,11 +3,16 @@ pub mod c02;
 pub mod c03;
 pub mod c04;
 pub mod c05;
+pub mod c06;
 pub mod c07;
 pub mod c08;
 pub mod c09;
+pub mod c10;
+pub mod c11;
 pub mod c12;
 pub mod c18;
+pub mod c19;
+pub mod c20;
 
 pub fn dispatch(prop: &str, tier: &str, seed: u64, path: Option<&str>) -> i32 {
     let _ = path;
@@ -30,12 +35,17 @@ pub fn dispatch(prop: &str, tier: &str, seed: u64, path: Option<&str>) -> i32 {
         "C01" => c01::run(tier, seed),
         "C08" => c08::run(tier, seed),
         "C09" => c09::run(tier, seed),
+        "C10" => c10::run(tier, seed),
+        "C11" => c11::run(tier, seed),
         "C12" => c12::run(tier, seed),
         "C18" => c18::run(tier, seed),
+        "C19" => c19::run(tier, seed),
+        "C20" => c20::run(tier, seed),
         "C02" => c02::run(tier, seed),
         "C03" => c03::run(tier, seed),
         "C04" => c04::run(tier, seed),
         "C05" => c05::run(tier, seed),
+        "C06" => c06::run(tier, seed),
         "C07" => c07::run(tier, seed),
         _ => {
             eprintln!("unknown property {prop}");
